@@ -41,7 +41,8 @@ def stdIns (cur : Nat) (t : Str) : Edit := ⟨cur, [], t⟩
 def go : DiffList → Nat → Option (Nat × Str) → List Edit
   | [], _, p => flush p
   | (.eq, t) :: ds, cur, p => flush p ++ go ds (cur + t.length) none
-  | (.del, t) :: ds, cur, _ => go ds (cur + t.length) (some (cur, t))
+  | (.del, t) :: ds, cur, none => go ds (cur + t.length) (some (cur, t))
+  | (.del, t) :: ds, cur, some (i, d) => go ds (cur + t.length) (some (i, d ++ t))
   | (.ins, t) :: ds, cur, some (i, d) => ⟨i, d, t⟩ :: go ds cur none
   | (.ins, t) :: ds, cur, none =>
       if cur = 0 then
